@@ -2,12 +2,12 @@ SPECIFICATION MCSpec
 CONSTANTS
   BlockSize = 16
   HeaderSize = 7
-  Lens = {0, 1, 2, 3, 8, 9, 10, 11, 19, 30}
+  Lens = {0, 1, 2, 3, 8, 9, 10, 11, 19, 20, 30}
   MaxRecs = 3
   MaxWrites = 1
-  Tails = {0, 1, 6, 7, 8, 20}
+  Tails = {0, 1, 6, 7, 8, 20, 40}
   MaxHit = 3
-  CTails = {0}
+  CTails = {0, 8}
 VIEW MCView
 INVARIANTS TypeOK Quiescent ChunkFits Tight TypesOK RecsInOrder PayloadConserved BufferWhole SizeLaw
            NothingInvented RoundTrip TolerantContains StrictStops TruncPiecewiseConstant
